@@ -23,7 +23,8 @@ type PKI struct {
 	CACert   *x509.Certificate
 	LeafKey  crypto.Signer
 	LeafCert *x509.Certificate
-	CRL      []byte // DER, lists no revoked certificate
+	TSACert  *x509.Certificate // time-stamping certificate (key = LeafKey), EKU timeStamping only, critical
+	CRL      []byte            // DER, lists no revoked certificate
 	// CRLRevoked is a CRL by the same CA that revokes the leaf (for negative controls).
 	CRLRevoked []byte
 }
@@ -109,6 +110,28 @@ func NewPKI(o PKIOptions, now time.Time) (*PKI, error) {
 		return nil, err
 	}
 	if p.LeafCert, err = x509.ParseCertificate(leafDER); err != nil {
+		return nil, err
+	}
+	tsaT := &x509.Certificate{
+		SerialNumber:          big.NewInt(o.Serial + 1),
+		Subject:               pkix.Name{CommonName: "VERIF harness TSA " + o.Name, Organization: []string{"verif"}},
+		NotBefore:             nb,
+		NotAfter:              na,
+		BasicConstraintsValid: true,
+		KeyUsage:              x509.KeyUsageDigitalSignature,
+		SubjectKeyId:          []byte{0x75, 0xA0, 2, 3, 4, 5, 6, 7},
+		// extKeyUsage = { id-kp-timeStamping }, critical (RFC 3161 §2.3)
+		ExtraExtensions: []pkix.Extension{{Id: []int{2, 5, 29, 37}, Critical: true,
+			Value: derSeq(derOID(1, 3, 6, 1, 5, 5, 7, 3, 8))}},
+	}
+	if o.CRLURL != "" {
+		tsaT.CRLDistributionPoints = []string{o.CRLURL}
+	}
+	tsaDER, err := x509.CreateCertificate(rand.Reader, tsaT, p.CACert, p.LeafKey.Public(), p.CAKey)
+	if err != nil {
+		return nil, err
+	}
+	if p.TSACert, err = x509.ParseCertificate(tsaDER); err != nil {
 		return nil, err
 	}
 	crlT := &x509.RevocationList{Number: big.NewInt(7), ThisUpdate: nb, NextUpdate: na}
